@@ -77,6 +77,8 @@ def gen_case(ctx: ShardCtx, streams: dict, corrupt: bool = False) -> dict:
     stream = rng.choice(list(streams))
     info = streams[stream]
     manifest = rng.choice(LIVE_TEMPLATES)
+    if stream == 'sy9':
+        manifest = 'manifest_ef.mpd'        # the only template with a SegmentTemplate per Representation
     params, now = W.live_params(
         rng, manifest, manifest in TIMELINE_TEMPLATES,
         manifest in DRM_TEMPLATES and info.get('encrypted', False),
